@@ -47,6 +47,13 @@ ASSUMPTIONS = [
     "sequence numbers fit SQLite's 64-bit INTEGER; the journal behaves as the abstract store (C13)",
 ]
 MODELLED_NOT_VERIFIED = [
+    "C14: transport FAULTS other than a missing writer are outside the model (a resumption has no failing drain / "
+    "write / close branch): the k-th write() raising, the k-th drain() raising after its write went out and after "
+    "other tasks ran, close() / wait_closed() raising (ConnectionResetError, RuntimeError) are explored by the "
+    "implementation-only oracle (reader replies, watchdog probe, senders; clauses: every frame that reached the "
+    "transport is journaled under its number, new numbers strictly increasing, stored + 1 = next_num_out > every "
+    "number that reached the wire); faults while a ResendRequest is serviced are a non-gating probe (see oracle "
+    "statistics: fault_probe_not_gating)",
     "C14: the coroutines are hand-modelled as resumptions (Model/SchedHandlers.lean, same do-blocks as the sequential "
     "session model, `runSeq (hR) = h` proved for every handler); the tie to the real coroutines is the exhaustive "
     "bounded schedule exploration run every check",
@@ -70,6 +77,9 @@ class Suspend:
 
     def __await__(self):
         yield self.tag
+
+
+FAULT_EXC = {"reset": ConnectionResetError, "runtime": RuntimeError}
 
 
 class HEvent:
@@ -102,12 +112,26 @@ class CWriter:
         self.m = machine
         self.paused = False
         self.waiters = []  # [task id, woken]
+        self.fault = None  # TRANSPORT FAULT: (op, k, exception class) – the k-th call of op raises
+        self.calls = {}
+
+    def hit(self, op):
+        """is this call of `op` the one that fails"""
+        self.calls[op] = self.calls.get(op, 0) + 1
+        if self.fault and self.fault[0] == op and self.fault[1] == self.calls[op]:
+            self.m.trace.append(("fault", self.m.cur, op))
+            return self.fault[2]
+        return None
 
     def write(self, b):
+        exc = self.hit("write")
+        if exc:
+            raise exc("injected: write")  # the frame never reaches the transport
         self.m.eff.append(("W", bytes(b)))
         self.m.on_write(bytes(b))
 
     async def drain(self):
+        exc = self.hit("drain")
         if self.paused:
             w = [self.m.cur, False]
             self.waiters.append(w)
@@ -116,6 +140,8 @@ class CWriter:
             self.waiters.pop(0)
         else:
             await Suspend("drain")
+        if exc:
+            raise exc("injected: drain")  # AFTER the write went out and after other tasks may have run
 
     def resume(self):
         self.paused = False
@@ -123,10 +149,16 @@ class CWriter:
             w[1] = True
 
     def close(self):
+        exc = self.hit("close")
+        if exc:
+            raise exc("injected: close")
         self.m.eff.append(("CS",))
 
     async def wait_closed(self):
+        exc = self.hit("wait_closed")
         await Suspend("waitClosed")
+        if exc:
+            raise exc("injected: wait_closed")
 
     def get_extra_info(self, *_):
         return None
@@ -332,6 +364,9 @@ class Machine(S.Impl):
         self.finish()
         self.cwriter.paused = paused
         self.cwriter.waiters = []
+        self.cwriter.calls = {}
+        f = opts.get("fault")
+        self.cwriter.fault = (f[0], int(f[1]), FAULT_EXC[f[2]]) if f else None
         self.select_key(opts.get("key", 1))
         self.load(a)
         self.load_others(a)
@@ -662,6 +697,13 @@ def scenarios(tier="quick"):
     add("recv+tick:resend-2(probe due)", due, [rx(due, "2", [(7, "5"), (16, "0")]), ("tick", T0)], toggles=1)
     due12 = active(state=12, max_resend=9, last_time=T0 - 30000)
     add("recv+tick:resend-2(probe due, awaiting)", due12, [rx(due12, "2", [(7, "5"), (16, "0")], seq=5), ("tick", T0)])
+    # ---- writer None in a connected state (the model's AttributeError branch), compared with the model only
+    nosock = active(sock=False)
+    add("2send:no-transport", nosock, [("send", T0, APP("a")), ("send", T0 + 125, APP("b"))], toggles=0, one=True)
+    add("send+recv:testrequest(no transport)", nosock, [("send", T0 + 125, APP("a")), rx(nosock, "1", [(112, "T")])],
+        toggles=0, one=True)
+    add("tick+send:probe-due(no transport)", active(sock=False, last_time=T0 - 30000),
+        [("tick", T0), ("send", T0 + 125, APP("a"))], toggles=0, one=True)
     # ---- CONFIGURATION: the acceptor side
     acc2 = active(role=2)
     add("send+recv:resend-2(acceptor)", acc2, [("send", T0 + 125, APP("conc")), rx(acc2, "2", [(7, "5"), (16, "0")])], toggles=0)
@@ -790,6 +832,8 @@ def entry_scn(e):
     a = S.parse_conn_tokens(e["conn"])
     tasks = [parse_task(t) for t in e["tasks"]]
     opts = {"key": e.get("key", 1), "nb": [parse_task(t) for t in e.get("nb", [])]}
+    if e.get("fault"):
+        opts["fault"] = tuple(e["fault"])
     return (e.get("label", "corpus"), a, e["sr"], tasks, 99, opts), bool(e["paused"]), list(e["letters"])
 
 
@@ -805,7 +849,8 @@ def make_entry(scn, paused, letters, label=None):
     o = scn_opts(scn)
     return {"label": label or name, "conn": a.tokens(), "sr": sr, "paused": 1 if paused else 0,
             "tasks": [task_tokens(t) for t in tasks], "letters": list(letters),
-            "key": o.get("key", 1), "nb": [task_tokens(t) for t in o.get("nb", [])]}
+            "key": o.get("key", 1), "nb": [task_tokens(t) for t in o.get("nb", [])],
+            "fault": list(o["fault"]) if o.get("fault") else None}
 
 
 def run_letters(m: Machine, scn, paused, letters):
@@ -928,6 +973,8 @@ def judgeable(scn) -> bool:
     compared with the model only).  A refused one (text outside latin-1) must change nothing and is judged."""
     if not consistent(scn[1]):
         return False
+    if scn[1].state > 3 and not scn[1].sock:
+        return False  # connected state without a transport as a START state: compared with the model only
     for t in list(scn[3]) + list(scn_opts(scn).get("nb", [])):
         if t[0] == "send" and own_numbered(t[2]) and all(ord(ch) < 256 for _, v in t[2][1] for ch in v):
             return False
@@ -1092,7 +1139,7 @@ def body_of(fields):
     return [(t, v) for t, v in fields if t not in BODY_SKIP]
 
 
-def judge_data(a: S.AbsConn, wire, excs, post: S.AbsConn, done: bool):
+def judge_data(a: S.AbsConn, wire, excs, post: S.AbsConn, done: bool, faulty: bool = False):
     """sentences of C14 for ONE connection: wire = [(task, fields)] in wire order, excs = [(task, kind, exc)],
     post = its counters / stored counter / outbound rows afterwards.  Returns [(sentence, detail)]."""
     out = []
@@ -1140,7 +1187,12 @@ def judge_data(a: S.AbsConn, wire, excs, post: S.AbsConn, done: bool):
     if done:
         if post.stored_out + 1 != post.next_out:
             out.append(("stored-counter", f"stored {post.stored_out} + 1 != next_num_out {post.next_out}"))
-        if post.next_out != highest + 1:
+        if faulty:
+            # after a transport fault a frame may be journaled without having reached the wire (the peer will ask
+            # for it); what must still hold: the counter is above every number that DID reach the wire
+            if post.next_out <= highest:
+                out.append(("counter-not-above-sent", f"next_num_out {post.next_out} <= highest sent {highest}"))
+        elif post.next_out != highest + 1:
             out.append(("final-counter", f"next_num_out {post.next_out} != highest sent {highest} + 1"))
     return out
 
@@ -1150,7 +1202,8 @@ def judge(m: Machine, a: S.AbsConn):
     it has tasks), and: the other sessions of the journal are untouched"""
     wire = [(m.owner[k], S.bytes_to_fields(e[1])) for k, e in enumerate(m.eff) if e[0] == "W"]
     excs = [(m.owner[k], e[0], e[1]) for k, e in enumerate(m.eff) if e[0] in ("C", "R")]
-    out = judge_data(a, wire, excs, S.parse_conn_tokens(m.dump()), m.all_done())
+    faulty = any(t[0] == "fault" for t in m.trace)
+    out = judge_data(a, wire, excs, S.parse_conn_tokens(m.dump()), m.all_done(), faulty)
     if m.session_image(m.inert_key) != m.inert_snapshot:
         out.append(("other-session-touched", f"inert session {m.inert_key} of the shared journal changed"))
     if m.nb_tasks:
@@ -1221,6 +1274,71 @@ def oracle_run(m: Machine, scn, paused, letters):
     return failure(m, scn, paused, letters, sent)
 
 
+def fault_scenarios():
+    """TRANSPORT FAULTS (oracle only – the model has no failing write / drain / close): the k-th write() raises,
+    the k-th drain() raises AFTER its write went out and after it was suspended (other tasks run meanwhile), the
+    k-th close() / wait_closed() raises; ConnectionResetError and RuntimeError; for the reader's replies (Logon
+    reply, Heartbeat reply, ResendRequest on a gap, Logout-driven disconnect, resend servicing), the watchdog's
+    TestRequest and application senders."""
+    a = active()
+    acc = fresh_net(2)
+    due = active(last_time=T0 - 30000)
+    sender = ("send", T0 + 125, APP("conc"))
+    base = [
+        ("fault:2send", a, [("send", T0, APP("a")), sender]),
+        ("fault:send+logon(acceptor)", acc, [rx(acc, "A", [(98, "0"), (108, "30")]), sender]),
+        ("fault:send+logon-high(acceptor)", acc, [rx(acc, "A", [(98, "0"), (108, "30")], seq=3), sender]),
+        ("fault:send+testrequest", a, [rx(a, "1", [(112, "T")]), sender]),
+        ("fault:send+high-seqnum", a, [rx(a, "D", [(11, "gap")], seq=a.next_in + 2), sender]),
+        ("fault:send+logout", a, [rx(a, "5", []), sender]),
+        ("fault:send+compid-mismatch", a, [rx(a, "D", [(58, "x")], target="WRONG"), sender]),
+        ("fault:send+tick-probe", due, [("tick", T0), sender]),
+        ("fault:send+tick-silence", active(state=12, max_resend=9, last_time=T0 - 61000), [("tick", T0), sender]),
+        ("fault:resend-2", a, [rx(a, "2", [(7, "5"), (16, "0")])]),
+        ("fault:resend-last(sess)", active(shape="sess"), [rx(a, "2", [(7, "3"), (16, "0")])]),
+    ]
+    out = []
+    n = 0
+    for name, a0, tasks in base:
+        for op, ks in (("drain", (1, 2)), ("write", (1, 2)), ("close", (1,)), ("wait_closed", (1,))):
+            for k in ks:
+                n += 1
+                exc = "reset" if n % 2 else "runtime"
+                out.append((f"{name}:{op}#{k}:{exc}", a0, "all", tasks, 1 if op == "drain" else 0,
+                            {"fault": (op, k, exc), "key": 1 + 2 * (n % 2)}))
+    return out
+
+
+def fault_probe(scn) -> bool:
+    """NOT gating: a transport fault while a ResendRequest is serviced leaves the outbound counter rewound on the
+    unchanged tree (an exception inside _process_resend never reaches the restoring set_seq_num) – reported to the
+    coordinator with its witness (round 5), kept out of the verdict until it is decided; the number of such
+    failures goes into the evidence notes"""
+    return scn[0].startswith("fault:resend")
+
+
+def fault_search(m, ctx, stats, failures, bound=4):
+    n = fired = 0
+    probe = []
+    for scn in fault_scenarios():
+        for paused in ((False, True) if scn[4] else (False,)):
+            def on_path(letters, recs, complete_, scn=scn, paused=paused):
+                nonlocal n, fired
+                n += 1
+                if not any(t[0] == "fault" for t in m.trace):
+                    return  # the faulty call was never reached in this scenario: an ordinary run
+                fired += 1
+                sent = judge(m, scn[1])
+                if sent:
+                    (probe if fault_probe(scn) else failures).append(failure(m, scn, paused, letters, sent))
+            explore(m, scn, paused, bound, on_path=on_path, max_paths=ctx.n(60, 600))
+    stats["fault_schedules"] = n
+    stats["fault_fired"] = fired
+    stats["fault_probe_not_gating"] = {"failures": len(probe),
+                                       "signatures": sorted({f["signature"] for f in probe}),
+                                       "witness": probe[0]["input"] if probe else None}
+
+
 def oracle(ctx, disagreements, broken):
     m = Machine()
     failures, stats = [], {"replayed_corpus": 0, "replayed_disagreements": 0, "explored": 0, "random": 0}
@@ -1243,6 +1361,7 @@ def oracle(ctx, disagreements, broken):
             f = oracle_run(m, scn, paused, letters)
             if f:
                 failures.append(f)
+        fault_search(m, ctx, stats, failures)
         cached = getattr(ctx, "c14_failures", None)
         known = {k["signature"] for k in C.load_findings(PROP)}
         concrete = any(f["signature"] not in known for f in failures) or \
